@@ -180,3 +180,29 @@ def compute_refs(worlds, workers=None):
             for k, w in enumerate(worlds)]
     res = run_inproc_many(jobs, workers=workers)
     return [r['ref'] for r in res]
+
+
+def run_worker(script, jobs, workers=None, chunk=None, timeout=900, env_extra=None,
+               python=None):
+    """Generic parallel driver: `script` (under harness/) reads a JSON list of
+    jobs on stdin and writes a JSON list of results (same order) to stdout."""
+    workers = workers or NCPU
+    if not jobs:
+        return []
+    if chunk is None:
+        chunk = max(1, (len(jobs) + workers - 1) // workers)
+    chunks = [jobs[i:i + chunk] for i in range(0, len(jobs), chunk)]
+
+    def one(ch):
+        p = subprocess.run([python or PY, os.path.join(HERE, script)],
+                           input=json.dumps(ch).encode(), env=base_env(env_extra),
+                           stdout=subprocess.PIPE, stderr=subprocess.PIPE,
+                           timeout=timeout, cwd=scratch_root())
+        if p.returncode != 0:
+            raise RuntimeError('worker %s failed rc=%s: %s' % (
+                script, p.returncode, p.stderr.decode('utf-8', 'replace')[-2000:]))
+        return json.loads(p.stdout)
+
+    with ThreadPoolExecutor(max_workers=workers) as ex:
+        parts = list(ex.map(one, chunks))
+    return [r for part in parts for r in part]
